@@ -260,3 +260,14 @@ Proof. exact epl_poll_hands_out_justified. Qed.
 Theorem C05_events_ok_initial : forall nh hs R, u_handles R = hs ->
   (forall k v h, ~ In (EvInput k v h) (u_event_queue R)) -> epl_events_ok nh hs R [].
 Proof. exact epl_events_ok_initial. Qed.
+
+(* the bytes of a frame are the values the sending session passed: what to_player_inputs decodes from the bytes
+   from_inputs produced is, value by value, what send_input was given for the players 0 .. num_players-1 the map
+   mentions, in handle order (u32 inputs: 0 <= v < 2^32) - so the value an Input event carries (ev_justified: the
+   a-th value of the frame's bytes) is the value the sender's session passed for its a-th local player *)
+Theorem C05_frame_bytes_are_the_values_passed : forall np inputs f b,
+  from_inputs np inputs = Ok (f, b) ->
+  let vs := sent_values (map Z.of_nat (seq 0 (Z.to_nat np))) inputs in
+  vs <> [] -> Forall (fun v => 0 <= v < 4294967296) vs ->
+  to_player_inputs (length vs) b = Some vs.
+Proof. exact to_player_inputs_from_inputs. Qed.
